@@ -38,11 +38,17 @@ def unary_menu():
     add(("punique", 2, "idx0", "last"), ("p",), "p")
     add(("sinkf", "rec3"), ("i", "p"), "none")     # sink(func, *args, **kwargs)
     add(("sinktxt",), ("i", "p"), "none")          # sink_to_textfile(file-like, end="|")
+    add(("accwsns",), ("i",), "p")                 # with_state=True without start
+    add(("flattenview",), ("i",), "i")             # flatten over iterables that are not sequences
+    add(("freq",), ("i",), "none")                 # frequencies(): a fresh dict per element (the alias oracle watches it)
+    add(("unique", None, "ident", False), ("p",), "=")     # list-mode unique over equal-but-distinct tuples
+    add(("unique", 1, "ident", False), ("p",), "=")
     add(("flatten",), ("p", "tn", "te"), "i")
     add(("pluck", 0), ("p", "tn"), "i")
     add(("pluck", (1, 0)), ("p",), "p")
     add(("collect",), ("i", "p", "tn", "te"), "te")
-    for a in [(None, None, None), (1, None, None), (None, 2, None), (None, 3, 2), (1, None, 2), (2, 2, None), (None, 0, None), (1, 4, 2)]:
+    for a in [(None, None, None), (1, None, None), (None, 2, None), (None, 3, 2), (1, None, 2), (2, 2, None), (None, 0, None), (1, 4, 2),
+              (None, None, 3), (1, None, 3)]:
         add(("slice",) + a, ("i", "p", "tn", "te"), "=")
     for n in (1, 2):
         for key in (None, "parity"):
@@ -75,6 +81,8 @@ JOINS = [
     ("cl", (1,), "int"),
     ("cl", (1,), "stream"),
     ("cl", (0, 1), "list"),
+    ("cl", (1,), "tuple"),
+    ("cl", (0,), "streams"),
     ("zl",),
 ]
 # one node per output type that may follow a join (tuples / ints)
